@@ -83,6 +83,16 @@ func (eng *engine) closeEventLoops() {
 func (eng *engine) runEventLoops(ctx context.Context, numEventLoop int) error {
 	var el0 *eventloop
 	lns := eng.listeners
+	// closeOwn closes the listeners created for an event-loop that could not be set up:
+	// until the loop is registered nobody else knows about them. (The first loop uses the
+	// engine's own listeners, which the caller closes.)
+	closeOwn := func(i int, lns map[int]*listener) {
+		if i > 0 {
+			for _, ln := range lns {
+				ln.close()
+			}
+		}
+	}
 	// Create loops locally and bind the listeners.
 	for i := 0; i < numEventLoop; i++ {
 		if i > 0 {
@@ -90,6 +100,7 @@ func (eng *engine) runEventLoops(ctx context.Context, numEventLoop int) error {
 			for _, l := range eng.listeners {
 				ln, err := initListener(l.network, l.address, eng.opts)
 				if err != nil {
+					closeOwn(i, lns)
 					return err
 				}
 				lns[ln.fd] = ln
@@ -97,6 +108,7 @@ func (eng *engine) runEventLoops(ctx context.Context, numEventLoop int) error {
 		}
 		p, err := netpoll.OpenPoller()
 		if err != nil {
+			closeOwn(i, lns)
 			return err
 		}
 		el := new(eventloop)
@@ -108,6 +120,8 @@ func (eng *engine) runEventLoops(ctx context.Context, numEventLoop int) error {
 		el.eventHandler = eng.eventHandler
 		for _, ln := range lns {
 			if err = el.poller.AddRead(ln.packPollAttachment(el.accept), false); err != nil {
+				_ = p.Close()
+				closeOwn(i, lns)
 				return err
 			}
 		}
